@@ -17,6 +17,20 @@ def main(argv=None):
     a = ap.parse_args(argv)
     prop = a.prop.upper()
     os.environ.setdefault('PYTHONHASHSEED', '0')
+    # malt writes every generated module to a temporary file and removes it in an atexit handler, which worker processes
+    # (os._exit) never run: all temporary files of this check and of its children go to a directory of their own, removed
+    # when the check ends (nothing is left under /tmp)
+    import tempfile
+    runtmp = common.scratch('tmp_%d' % os.getpid())
+    os.environ['TMPDIR'] = runtmp
+    tempfile.tempdir = runtmp
+    try:
+        return _main(a, prop)
+    finally:
+        common.rmtree(runtmp)
+
+
+def _main(a, prop):
     try:
         mod = importlib.import_module('vf.props.' + prop.lower())
     except ImportError:
